@@ -3,6 +3,8 @@ package props
 import (
 	"testing"
 
+	nodetypes "github.com/SaoNetwork/sao/x/node/types"
+	sdk "github.com/cosmos/cosmos-sdk/types"
 	"pgregory.net/rapid"
 )
 
@@ -18,6 +20,8 @@ type lifeSpec struct {
 	Drain      bool // advance until nothing is scheduled at the end of the case
 	MaxSteps   int
 	Finish     func(s *Sim, cfg *LifeCfg, os []Oracle)
+	Pre        func(t *rapid.T, s *Sim, cfg *LifeCfg, os []Oracle) // generated configuration, before world setup
+	OnReplay   func(s *Sim, os []Oracle)
 }
 
 var lifeActions = []string{"storeNew", "storeUpdate", "complete", "cancel", "terminate", "renew", "migrate", "claim", "advance", "storeHostile", "seed", "vstorage", "bankDrain", "resetNode", "debtCombo", "keepAlive"}
@@ -44,6 +48,9 @@ func (sp *lifeSpec) property() func(*rapid.T) {
 			capacity = 1_000_000_000
 		}
 		aborted := RunCase(func() {
+			if sp.Pre != nil {
+				sp.Pre(t, s, cfg, os)
+			}
 			s.SetupStorage(cfg, capacity)
 			gens := map[string]func(*rapid.T, *Sim) *Action{
 				"storeNew": cfg.GenStoreNew, "storeUpdate": cfg.GenStoreUpdate, "complete": cfg.GenComplete,
@@ -107,7 +114,10 @@ func (sp *lifeSpec) property() func(*rapid.T) {
 
 func (sp *lifeSpec) register() {
 	replayers[sp.Test] = func(t TB, v *Violation) {
-		s, _, _ := sp.newSim(t)
+		s, _, os := sp.newSim(t)
+		if sp.OnReplay != nil {
+			sp.OnReplay(s, os)
+		}
 		replayHistory(s, v.History)
 	}
 }
@@ -267,3 +277,68 @@ func init() {
 }
 
 func TestC04(t *testing.T) { runRapid(t, "TestC04", specC04.property()) }
+
+// ---- C08 ----
+
+func genNodeParams(t *rapid.T, denom string) *nodetypes.Params {
+	reward := rapid.SampledFrom([]int64{0, 1, 7, 1000, 1_000_000, 6_250_000}).Draw(t, "blockReward")
+	baseline := rapid.SampledFrom([]int64{0, 1, 1000, 4999, 5001, 20000, 1_000_000_000_000_000}).Draw(t, "baseline")
+	apy := rapid.SampledFrom([]string{"0", "0.01", "0.5", "1", "25"}).Draw(t, "apy")
+	halving := rapid.SampledFrom([]int64{11, 12, 100, 5000, 32000000}).Draw(t, "halving")
+	adjust := rapid.SampledFrom([]int64{11, 17, 50, 2000}).Draw(t, "adjust")
+	apyDec, _ := sdk.NewDecFromStr(apy)
+	p := nodetypes.NewParams(sdk.NewInt64Coin(denom, reward), sdk.NewInt64Coin(denom, baseline), apyDec, halving, adjust, "", 1, 10000,
+		sdk.NewDecWithPrec(10, 2), 10_000_000, 1_000_000)
+	return &p
+}
+
+var specC08 = &lifeSpec{
+	Prop: "C08", Test: "TestC08",
+	Oracles: func() []Oracle { return []Oracle{NewC08()} },
+	Tune: func(cfg *LifeCfg, s *Sim) {
+		s.Oracles[0].(*C08Oracle).Attach(s)
+		cfg.MaxDur = 4000
+	},
+	Pre: func(t *rapid.T, s *Sim, cfg *LifeCfg, os []Oracle) {
+		a := NewAction("params", 0)
+		a.Params = genNodeParams(t, s.W.Cfg.Denom)
+		s.Do(a)
+		if rapid.IntRange(0, 3).Draw(t, "preminted") == 0 {
+			// a pool whose reward counter is already far along (a genesis field), to reach later halving ages
+			p := NewAction("set_pool", 0)
+			p.Amount = rapid.SampledFrom([]int64{200000000000000, 300000000000000, 399999999000000, 399999999999000}).Draw(t, "totalReward")
+			s.Do(p)
+			v := sdk.NewInt(p.Amount)
+			os[0].(*C08Oracle).baseReward = &v
+		}
+	},
+	OnReplay: func(s *Sim, os []Oracle) {},
+	Nontrivial: func(s *Sim, os []Oracle) bool {
+		o := os[0].(*C08Oracle)
+		return o.Mints > 0 && o.CapChanges > 0 && o.Claims > 0
+	},
+	Weights:  map[string]int{"complete": 2, "advance": 5, "storeNew": 2, "storeUpdate": 0, "renew": 1, "migrate": 1, "claim": 4, "terminate": 1, "cancel": 0, "vstorage": 5},
+	MaxSteps: 40,
+	Capacity: 1_000_000_000,
+}
+
+func init() {
+	specC08.register()
+	base := replayers["TestC08"]
+	replayers["TestC08"] = func(t TB, v *Violation) {
+		// the pre-minted counter is part of the recorded history (set_pool action)
+		for _, a := range v.History {
+			if a.Kind == "set_pool" {
+				amt := sdk.NewInt(a.Amount)
+				c08ReplayBase = &amt
+			}
+		}
+		base(t, v)
+		c08ReplayBase = nil
+	}
+	specC08.OnReplay = func(s *Sim, os []Oracle) { os[0].(*C08Oracle).baseReward = c08ReplayBase }
+}
+
+var c08ReplayBase *sdk.Int
+
+func TestC08(t *testing.T) { runRapid(t, "TestC08", specC08.property()) }
